@@ -86,8 +86,10 @@ def run(tier, seed):
         names = local_names(p)
         cand = [tk for tk in (t.get("tokens") or []) if tk["text"] in names]
         rnd.shuffle(cand)
-        cand.sort(key=lambda tk: 0 if tk["text"] == "zx" else 1)        # every occurrence of the shapes' name first
-        for tk in cand[:(4 if tier == "quick" else 8) + sum(1 for tk in cand if tk["text"] == "zx")]:
+        recv = {m["this"] for m in p.get("meths", [])}
+        first = lambda tk: tk["text"] == "zx" or tk["text"] in recv       # every occurrence of the shapes' name and of method receivers first
+        cand.sort(key=lambda tk: 0 if first(tk) else 1)
+        for tk in cand[:(4 if tier == "quick" else 8) + sum(1 for tk in cand if first(tk))]:
             jobs.append((["reftest-rename", "--new-name", NEW, "FILE", str(tk["start"])], s))
             meta.append((p, s, e, tk))
     res = rf.cli(jobs)
